@@ -123,23 +123,24 @@ type CallSite struct {
 
 // Frame is one function activation (top-level or inlined).
 type Frame struct {
-	fe         *FuncEnc
-	fn         *ssa.Function
-	prefix     string
-	vals       map[ssa.Value]Term
-	tuples     map[ssa.Value][]Term
-	params     []Term
-	free       []Term
-	edges      map[edgeKey]*edgeInfo
-	closures   map[ssa.Value]*ssa.MakeClosure
-	depth      int
-	entry      *State
-	init       *State // state at function entry (for old())
-	defers     []*ssa.Defer
-	deferReach map[*ssa.Defer]string
-	loopCtx    map[*ssa.BasicBlock]*loopInfo
-	blockIn    map[*ssa.BasicBlock]*State
-	retNames   []string
+	fe          *FuncEnc
+	fn          *ssa.Function
+	prefix      string
+	vals        map[ssa.Value]Term
+	tuples      map[ssa.Value][]Term
+	params      []Term
+	free        []Term
+	edges       map[edgeKey]*edgeInfo
+	closures    map[ssa.Value]*ssa.MakeClosure
+	depth       int
+	entry       *State
+	init        *State // state at function entry (for old())
+	defers      []*ssa.Defer
+	deferReach  map[*ssa.Defer]string
+	loopCtx     map[*ssa.BasicBlock]*loopInfo
+	pendingBack []*ssa.BasicBlock // blocks with outgoing edges whose back edges are checked after the body is encoded
+	blockIn     map[*ssa.BasicBlock]*State
+	retNames    []string
 }
 
 type edgeKey struct {
